@@ -449,7 +449,7 @@ class C07(vlib.PropertyCheck):
 
     def extra_steps(self, ctx):
         # operation / size histograms of this run (the shared histogram only sees the constructor token)
-        path = vlib.os.path.join(vlib.BUILD, 'work', 'c07', 'cases-main.txt')
+        path = vlib.os.path.join(vlib.BUILD, 'work', 'c07', 'cases-main-%d.txt' % vlib.os.getpid())
         ops, sizes, lens = {}, {}, {}
         try:
             with open(path) as f:
